@@ -24,7 +24,40 @@ ANCHORS = {-2: -(1 << 64), -1: -(1 << 63), 0: 0, 1: 1 << 53, 2: 10 ** 18, 3: 1 <
 # scales of the gscaled kind: the exact float behind each scale id of Datatypes.tla
 SCALES = {'0.1': 0.1, '0.2': 0.2, '0.01': 0.01, '0.003': 0.003, '1/3': 1 / 3, '2^-20': 2.0 ** -20,
           '1.000001e-3': 1.000001e-3, '0.0254/4096': 0.0254 / 4096, '7': 7.0, '1e6': 1e6}
+# scales of the bscaled kind (integer range up to 2^53, power-of-two scale: every grid point is a double)
+BIG_SCALES = {'1': 1.0, '0.5': 0.5, '8': 8.0}
+SCALES.update(BIG_SCALES)
 SCALE_IDS = {v: k for k, v in SCALES.items()}
+GANCHORS = {-2: -(1 << 53), -1: -(1 << 52), 0: 0, 1: 1 << 52, 2: 1 << 53}
+
+
+def gpos_int(a, d):
+    if abs(d) == FAR:
+        return GANCHORS[a] + (1 << 40) * (1 if d > 0 else -1)
+    return GANCHORS[a] + d
+
+
+def int_gpos(n):
+    """python int -> grid position (a, d) of the bscaled kind: exact near an anchor, else 'far above anchor a'"""
+    keys = sorted(GANCHORS)
+    if abs(n) < HUGE:
+        return 0, n
+    if n < GANCHORS[keys[0]] - NEAR:
+        return keys[0], -FAR
+    for a in keys:
+        if abs(n - GANCHORS[a]) <= NEAR:
+            return a, n - GANCHORS[a]
+    return max(a for a in keys if GANCHORS[a] < n), FAR
+
+
+def big_abs(x, scale, j):
+    """number at a bscaled position -> gint (wire integer) / bgnum (float on the grid), or None when not on the grid"""
+    q = Fraction(x) / Fraction(scale) if j == 'bgnum' else Fraction(x)
+    if q.denominator != 1:
+        return None
+    a, d = int_gpos(int(q))
+    return {'j': j, 'a': a, 'd': d}
+
 
 
 def grid_abs(x, scale, src='num'):
@@ -54,10 +87,22 @@ def grid_value(c, scale):
 
 def relativise(c, conc, dt, path):
     """numbers offered from python (not on the wire) to a gscaled position are measured in its grid units"""
-    if dt is None or path == 'wire':
+    if dt is None:
         return c
     k = dt['k']
+    if k == 'bscaled':
+        if isinstance(conc, bool):
+            return c
+        if path == 'wire':
+            return big_abs(conc, 1, 'gint') if isinstance(conc, int) else c
+        if isinstance(conc, int) or (isinstance(conc, float) and math.isfinite(conc)):
+            return big_abs(conc, SCALES[dt['sid']], 'bgnum') or c
+        return c
+    if path == 'wire' and not has_kind(dt, 'bscaled'):
+        return c
     if k == 'gscaled':
+        if path == 'wire':
+            return c
         frappy()
         from frappy.lib.enum import EnumMember
         src = 'bool' if isinstance(conc, bool) else 'member' if isinstance(conc, EnumMember) else 'num'
@@ -74,6 +119,37 @@ def relativise(c, conc, dt, path):
     except (TypeError, KeyError, IndexError):
         pass
     return c
+
+
+def has_kind(dt, kind):
+    k = dt['k']
+    if k == kind:
+        return True
+    if k == 'array':
+        return has_kind(dt['el'], kind)
+    if k == 'tuple':
+        return any(has_kind(e, kind) for e in dt['els'])
+    if k == 'struct':
+        return any(has_kind(m['t'], kind) for m in dt['mem'])
+    return False
+
+
+def ungrounded(dt, c, path):
+    """mirror of Ungrounded / UngroundedW / HasGnum / HasGint of Datatypes.tla: a case the model does not decide"""
+    if dt is None:
+        return False
+    k, j = dt['k'], c['j']
+    if j in ('gnum', 'bgnum') and path == 'wire' or j == 'gint' and path != 'wire':
+        return True
+    if k in ('gscaled', 'bscaled') and path != 'wire':
+        return j in ('int', 'num', 'bint', 'bool', 'member', 'fmax')
+    if k == 'bscaled':
+        return (j == 'int' and abs(c['n']) >= HUGE) or j == 'bint' or (j == 'num' and abs(c['t']) >= HUGE)
+    if j == 'list' and k in ('array', 'tuple'):
+        return any(ungrounded(sub_type(dt, c, i), x, path) for i, x in enumerate(c['xs']))
+    if j == 'obj' and k == 'struct':
+        return any(ungrounded(sub_type(dt, c, e['k']), e['v'], path) for e in c['kv'])
+    return False
 
 
 def pos_int(a, d):
@@ -144,6 +220,18 @@ def build_type(dt):
                               None if dt['res']['k'] == 'none' else build_type(dt['res']))
     if k == 'none':
         return None
+    if k == 'bscaled':
+        sc = SCALES[dt['sid']]
+        kw = {}
+        if dt.get('abs', -1) >= 0:
+            kw['absolute_resolution'] = dt['abs'] / U
+        if dt.get('rel', -1) >= 0:
+            kw['relative_resolution'] = dt['rel'] * 0.125
+        if dt.get('unit'):
+            kw['unit'] = dt['unit']
+        if dt.get('fmt', '%g') != '%g':
+            kw['fmtstr'] = dt['fmt']
+        return fd.ScaledInteger(sc, gpos_int(dt['min']['a'], dt['min']['d']) * sc, gpos_int(dt['max']['a'], dt['max']['d']) * sc, **kw)
     if k == 'gscaled':
         sc = SCALES[dt['sid']]
         kw = {}
@@ -266,6 +354,10 @@ def concrete(c, dt=None, obj=None, internal=False):
         return pos_int(c['a'], c['d'])
     if j == 'gnum':
         return grid_value(c, SCALES[dt['sid']]) if dt is not None and dt['k'] == 'gscaled' else 0.0
+    if j == 'gint':
+        return gpos_int(c['a'], c['d'])
+    if j == 'bgnum':
+        return gpos_int(c['a'], c['d']) * (SCALES[dt['sid']] if dt is not None and dt['k'] == 'bscaled' else 1.0)
     if j == 'num':
         t = c['t']
         if abs(t) >= HUGE:
@@ -384,13 +476,15 @@ def gamma_alpha_ok(c):
 
 def typed_gamma_alpha_ok(c, dt):
     """alpha(gamma(c)) = c for the grid-relative numbers of a gscaled type"""
+    if dt['k'] == 'bscaled' and c['j'] in ('gint', 'bgnum'):
+        return big_abs(concrete(c, dt), SCALES[dt['sid']], c['j']) == c
     if dt['k'] != 'gscaled' or c['j'] != 'gnum':
         return True
     return grid_abs(concrete(c, dt), SCALES[dt['sid']]) == c
 
 
 def _same_abs(c, a, conc):
-    if c['j'] == 'gnum':
+    if c['j'] in ('gnum', 'gint', 'bgnum'):
         return True          # relative to its type: checked by typed_gamma_alpha_ok
     if c['j'] == 'str':
         return a['j'] == 'str' and all(a[f] == c[f] for f in ('cls', 'len', 'blen')) and (not c['name'] or conc == c['name'])
@@ -439,6 +533,15 @@ def alpha(res, dt, ac, conc, pa=None, pconc=None):
         return {'j': 'bool', 'b': res}
     if isinstance(res, EnumMember):
         return {'j': 'member', 'n': res.value, 'name': res.name}
+    if isinstance(res, (int, float)) and not isinstance(res, bool) and dt is not None and dt['k'] == 'bscaled' \
+            and (isinstance(res, int) or math.isfinite(res)):
+        # a float is a grid point (anchor + d) * scale, an int (exported / wire form) the grid index itself: exact integers
+        a = big_abs(res, SCALES[dt['sid']], 'bgnum' if isinstance(res, float) else 'gint')
+        if a is None:
+            return {'j': 'off-grid'}
+        if abs(a['d']) == FAR and not _same_number(res, conc):
+            return ALTERED
+        return a
     if isinstance(res, int):
         if dt is not None and dt['k'] == 'bigint':
             a = bint_abs(res)
@@ -606,6 +709,8 @@ def cand_class(dt, c):
         return 'int-huge' if abs(c['n']) >= HUGE else 'int'
     if j == 'bint':
         return 'int-big'
+    if j in ('gint', 'bgnum'):
+        return 'grid-index-big' if c['a'] else 'grid-index'
     if j == 'gnum':
         return 'grid-huge' if abs(c['q']) >= HUGE else 'grid-point' if not c['ix'] and c['q'] % 4 == 0 else 'off-grid'
     if j == 'special':
@@ -675,6 +780,10 @@ def show(v):
         return 'int %d' % v['n']
     if j == 'bint':
         return 'int %s' % _pos_text(v)
+    if j in ('gint', 'bgnum'):
+        name = {-2: '-2^53', -1: '-2^52', 0: '0', 1: '2^52', 2: '2^53'}[v['a']]
+        off = ('++' if v['d'] > 0 else '--') if abs(v['d']) == FAR else ('%+d' % v['d'] if v['d'] else '')
+        return '%s %s%s' % ('index' if j == 'gint' else 'grid point', name, off)
     if j == 'gnum':
         return '%g%s grid steps' % (v['q'] / 4, '~' if v['ix'] else '')
     if j == 'bool':
@@ -714,6 +823,8 @@ def show_type(dt):
                                                  '-' if dt['max'] == NOLIM else dt['max'] / U, dt['abs'] / U, dt['rel'] / 8)
     if k == 'int':
         return 'int(%d..%d)' % (dt['min'], dt['max'])
+    if k == 'bscaled':
+        return 'scaled(scale %s, %s..%s steps)' % (dt['sid'], show({'j': 'gint', **dt['min']})[6:], show({'j': 'gint', **dt['max']})[6:])
     if k == 'gscaled':
         return 'scaled(scale %s, %d..%d steps)' % (dt['sid'], dt['min'], dt['max'])
     if k == 'bigint':
@@ -760,7 +871,7 @@ def is_literal(s):
 
 
 def rand_type(rnd, depth, open_strings=False, big=True):
-    kinds = ['double', 'int', 'scaled', 'bool', 'enum', 'string', 'blob'] + (['bigint', 'gscaled'] if big else [])
+    kinds = ['double', 'int', 'scaled', 'bool', 'enum', 'string', 'blob'] + (['bigint', 'gscaled', 'bscaled'] if big else [])
     if depth > 0:
         kinds += ['array', 'tuple', 'struct'] * 3
     k = rnd.choice(kinds)
@@ -772,9 +883,13 @@ def rand_type(rnd, depth, open_strings=False, big=True):
     if k == 'int':
         lo = rnd.randint(-300, 300)
         return {'k': k, 'min': lo, 'max': lo + rnd.choice((0, 1, rnd.randint(0, 600)))}
+    if k == 'bscaled':    # integer range reaching 2^52 .. 2^53
+        lo = rnd.choice(((-2, 0), (-2, 4), (-1, -3), (0, 0), (0, -7), (1, -2)))
+        hi = rnd.choice(((2, 0), (2, -1), (2, -6), (1, 5)))
+        return {'k': k, 'sid': rnd.choice(sorted(BIG_SCALES)), 'min': {'a': lo[0], 'd': lo[1]}, 'max': {'a': hi[0], 'd': hi[1]}}
     if k == 'gscaled':    # any scale of the table, limits on its grid (both signs, inexact float quotients included)
         lo = rnd.choice((0, 3, 7, -3, -7, 29, rnd.randint(-60, 60)))
-        return {'k': k, 'sid': rnd.choice(sorted(SCALES)), 'min': lo, 'max': lo + rnd.choice((0, 1, 4, rnd.randint(0, 90), 100000))}
+        return {'k': k, 'sid': rnd.choice(sorted(set(SCALES) - set(BIG_SCALES))), 'min': lo, 'max': lo + rnd.choice((0, 1, 4, rnd.randint(0, 90), 100000))}
     if k == 'bigint':     # an int type with at least one limit beyond 2^53, declared exactly
         ps = sorted((rnd.choice((-2, -1, 0, 1, 2, 3, 4)), rnd.randint(-3, 3)) for _ in range(2))
         if all(a == 0 for a, _ in ps):
@@ -843,6 +958,12 @@ def rand_value(rnd, dt, junk=0.2):
             return rnd.choice(WEIRD_NUM)
         n = rnd.choice((dt['min'], dt['max'], 0)) + rnd.randint(-2, 2)
         return rnd.choice((n, n, float(n), n + 0.5, str(n)))
+    if k == 'bscaled':
+        if rnd.random() < 0.1:
+            return rnd.choice(('5', None, [1], math.nan, True))
+        p = rnd.choice((dt['min'], dt['max'], {'a': 2, 'd': -1}, {'a': 1, 'd': 1}, {'a': -2, 'd': 1}, {'a': 1, 'd': 0}, {'a': 0, 'd': 3}))
+        n = gpos_int(p['a'], p['d']) + rnd.choice((-2, -1, 0, 0, 1, 2))
+        return n if rnd.random() < 0.5 else n * SCALES[dt['sid']]      # wire form: grid index / python form: grid point
     if k == 'gscaled':
         if rnd.random() < 0.15:
             return rnd.choice(WEIRD_NUM)
@@ -918,6 +1039,10 @@ def _valid_internal(rnd, dt, n=None):
         return {'j': 'num', 't': t, 'ix': False, 'w': t % U == 0}
     if k == 'int':
         return {'j': 'int', 'n': rnd.randint(dt['min'], dt['max'])}
+    if k == 'bscaled':
+        lo, hi = gpos_int(dt['min']['a'], dt['min']['d']), gpos_int(dt['max']['a'], dt['max']['d'])
+        a, d = int_gpos(rnd.choice((lo, hi, min(hi, lo + rnd.randint(0, 3)), max(lo, hi - rnd.randint(0, 3)))))
+        return {'j': 'bgnum', 'a': a, 'd': d}
     if k == 'gscaled':
         return {'j': 'gnum', 'q': 4 * rnd.randint(dt['min'], dt['max']), 'ix': False, 'src': 'num'}
     if k == 'bigint':
@@ -972,6 +1097,11 @@ def rand_valid(rnd, dt, obj):
         return float(rnd.choice(pool))
     if k == 'int':
         return rnd.choice((dt['min'], dt['max'], rnd.randint(dt['min'], dt['max'])))
+    if k == 'bscaled':
+        lo, hi = gpos_int(dt['min']['a'], dt['min']['d']), gpos_int(dt['max']['a'], dt['max']['d'])
+        inside = [n for n in (2 ** 53 - 1, 2 ** 53 - 3, 2 ** 52 + 1, 2 ** 52 + 3, 3 * 2 ** 51 + 5, -(2 ** 53) + 1, -(2 ** 52) - 1, 1, 0)
+                  if lo <= n <= hi]
+        return rnd.choice([lo, hi, max(lo, hi - rnd.randint(0, 3))] + inside) * SCALES[dt['sid']]
     if k == 'gscaled':
         return rnd.choice((dt['min'], dt['max'], rnd.randint(dt['min'], dt['max']))) * SCALES[dt['sid']]
     if k == 'bigint':
@@ -1265,7 +1395,7 @@ def deco(dt, unit='', fmt='%g', dflt=True):
         return dict(dt, rel=-1 if dflt else dt['rel'], unit=unit, fmt=fmt)
     if k == 'scaled':
         return dict(dt, abs=dt['scale'] if dflt else 0, rel=-1 if dflt else 1, unit=unit, fmt=fmt)
-    if k == 'gscaled':
+    if k in ('gscaled', 'bscaled'):
         return dict(dt, abs=-1 if dflt else 0, rel=-1 if dflt else 1, unit=unit, fmt=fmt)
     if k == 'array':
         return dict(dt, el=deco(dt['el'], unit, fmt, dflt))
@@ -1308,9 +1438,16 @@ def info_abs(x, keep_order=False):
         res = {'j': 'obj', 'kv': [{'k': k, 'v': info_abs(x[k], keep_order=(k == 'members' and x.get('type') == 'struct'))}
                                   for k in keys]}
         if x.get('type') == 'scaled' and isinstance(x.get('scale'), float) and x['scale'] in SCALE_IDS:
-            for e in res['kv']:          # exactly a float of the scale table: named, so that TLC can compare it
-                if e['k'] == 'scale':
-                    e['v'] = {'j': 'gscale', 'sid': SCALE_IDS[x['scale']]}
+            sid = SCALE_IDS[x['scale']]
+            lims = [x.get('min'), x.get('max')]
+            big = sid in BIG_SCALES and all(isinstance(v, int) and not isinstance(v, bool) for v in lims) and any(abs(v) >= HUGE for v in lims)
+            if sid not in BIG_SCALES or big:
+                for e in res['kv']:          # exactly a float of the scale table: named, so that TLC can compare it
+                    if e['k'] == 'scale':
+                        e['v'] = {'j': 'gscale', 'sid': sid}
+                    elif big and e['k'] in ('min', 'max') and abs(x[e['k']]) >= HUGE:
+                        a, d = int_gpos(x[e['k']])       # limits beyond the small range: exact grid positions
+                        e['v'] = {'j': 'gint', 'a': a, 'd': d}
         return res
     if x is None:
         return {'j': 'null'}
